@@ -69,3 +69,8 @@ package crypto
 // The author is taken from the body signature only for the four supported schemes.
 //@ func GetRequestAuthor
 //@   ensures [author_only_for_supported_scheme] err == nil ==> vh != nil && old(vh.BodySignature) != nil && (old(vh.BodySignature.Scheme) == 0 || old(vh.BodySignature.Scheme) == 1 || old(vh.BodySignature.Scheme) == 2 || old(vh.BodySignature.Scheme) == 3)
+
+// The N3 witness check handed to the SDK runs the scripts on every call: a nil answer comes
+// only from a run that answered true (no shortcut keyed by the witness alone).
+//@ func VerifyRequestSignaturesN3$1
+//@   ensures [nil_only_if_script_ran_true_for_this_data] err == nil ==> scriptRunTrue()
